@@ -50,6 +50,9 @@ pred atRec(f int, p int64) :=
 
 ghost field Reader.gfile int
 
+// definition of the derived index timestamp: the running maximum of the record times
+pred tsDef(f int) := forall k :: 0 <= k && k < recN(f) ==> recTs(f, k) == max(recMicro(f, k), ite(k > 0, recTs(f, k - 1), 0))
+
 // position p is a record boundary of f: the start of record recIdx(f,p), or the end of the valid prefix
 pred atIdx(f int, p int64) :=
     0 <= recIdx(f, p) && recIdx(f, p) <= recN(f) && recPos(f, recIdx(f, p)) == p
